@@ -510,9 +510,15 @@ func (b *builder) stopTimeoutCase(byMgmt bool, lingerKind, stopTok string) {
 		}
 		lines = append(lines, spawn(k, o, ""), "finish "+strconv.Itoa(id-1))
 	}
-	for n := rng.Intn(3); n > 0; n-- { // items that end when the context is cancelled
+	// items that end when the context is cancelled; at most one of them by a panic (which of two concurrent panics is
+	// reported last — `last=` of the following lines — is up to the scheduler)
+	for n, first := rng.Intn(3), true; n > 0; n, first = n-1, false {
 		k := []string{"runworker", "startworker", "svc", "mt-start-high", "mt-run-high", "hook-trigger"}[rng.Intn(6)]
-		lines = append(lines, spawn(k, randOutcome(rng, 50, false), "onstop"))
+		o := healthyOutcome(rng)
+		if first {
+			o = randOutcome(rng, 50, false)
+		}
+		lines = append(lines, spawn(k, o, "onstop"))
 		b.r.Count("stop-timeout:onstop:" + k)
 	}
 	lines = append(lines, "status")
